@@ -25,8 +25,8 @@ _PARSE_CACHE: dict[tuple[str, str], ast.Module] = {}    # (path, full text) -> t
 class Sources:
     """Text of repository files, overridable per repo-relative path."""
 
-    def __init__(self, repo: str = "/repo", sources: dict[str, str] | None = None) -> None:
-        self.repo = str(repo)
+    def __init__(self, repo: str | None = None, sources: dict[str, str] | None = None) -> None:
+        self.repo = str(repo or os.environ.get("PYVC_REPO", "/repo"))
         self.override = dict(sources or {})
         self._trees: dict[str, ast.Module] = {}
 
